@@ -1112,7 +1112,12 @@ def execute(sim, scn):
         t = tr.t_srv
         reg, st = reg_at(loc, t)
         pairs = split_q([subst(s) for s in op["q"]])
-        if rcode[0] == 4:
+        if rcode[0] == 5:
+            # the update failed inside the directory: it is no successful write, so the registration stays as its
+            # latest successful write left it (an update the model would have accepted at that)
+            sim.anomaly("C20/update-%d.%02d" % rcode, str(op["q"]))
+            sim.probe("update_5xx")
+        if rcode[0] in (4, 5):
             if st == "live":
                 if op.get("valid") and rcode != (4, 4):
                     sim.anomaly("C20/valid-update-rejected", "%s %s" % (op["q"], rcode))
